@@ -1,32 +1,70 @@
-(* C11 correspondence: every (request kind, faulted operation, fault mode) run by harness/db/verif_c11_test.go,
+(* C11 correspondence: every (request kind, faulted operations, fault mode) run by harness/db/verif_c11_test.go,
    with the operation classes observed on the real trace, compared with the model's prediction. *)
 From SG Require Export Base.Prelude C11.Atomicity.
 
-Inductive pstate := SUnchanged | SCommitted | SOther.
+(* SLost: the commit is visible but a follow-up that is part of the request's effect is not (stale access) *)
+Inductive pstate := SUnchanged | SCommitted | SOther | SLost.
 
-(* trace, index of the faulted operation, CAS-mismatch mode (the caller retries), whether the un-faulted
+Inductive case :=
+(* trace, indexes of the faulted operations, CAS-mismatch mode (the caller retries), whether the un-faulted
    request succeeds, the observed result, the observed primary state *)
-Inductive case := CFault (tr : list opclass) (k : list nat) (casmode : bool) (expect_success : bool) (r : result) (s : pstate).
+| CFault (tr : list opclass) (k : list nat) (casmode : bool) (expect_success : bool) (r : result) (s : pstate)
+(* a request with several commits: cont (bulk: every sub-request runs and reports) or aborting; one trace per
+   sub-request; GLOBAL indexes of the faulted operations; the observed results (cont: one per sub-request;
+   aborting: the single result of the request) and the observed state of every sub-request's keys *)
+| CMulti (cont : bool) (trs : list (list opclass)) (k : list nat) (rs : list result) (ss : list pstate).
 
 Definition result_eqb (a b : result) : bool := match a, b with ROk, ROk | RErr, RErr => true | _, _ => false end.
+Definition pstate_eqb (a b : pstate) : bool :=
+  match a, b with SUnchanged, SUnchanged | SCommitted, SCommitted | SOther, SOther | SLost, SLost => true | _, _ => false end.
 
 (* the two consistent observations: failure with the primary state untouched, success with the effect visible *)
 Definition consistent (r : result) (s : pstate) : bool :=
   match r, s with RErr, SUnchanged | ROk, SCommitted => true | _, _ => false end.
 
-Definition is_read (tr : list opclass) (k : list nat) : bool :=
-  existsb (fun f => match nth_error tr f with Some Read => true | _ => false end) k.
+Definition is_read_at (tr : list opclass) (f : nat) : bool := match nth_error tr f with Some Read => true | _ => false end.
+Definition is_read (tr : list opclass) (k : list nat) : bool := existsb (is_read_at tr) k.
+(* the faults that do not hit a read *)
+Definition drop_reads (tr : list opclass) (k : list nat) : list nat := filter (fun f => negb (is_read_at tr f)) k.
 
-Definition state_matches (committed_in_model : bool) (s : pstate) : bool :=
-  match committed_in_model, s with true, SCommitted | false, SUnchanged => true | _, _ => false end.
+(* the state the model predicts *)
+Definition model_state (m : sys) : pstate :=
+  if committed m then (match lost m with [] => SCommitted | _ => SLost end) else SUnchanged.
+
+Definition matches (m : sys * result) (r : result) (s : pstate) : bool :=
+  result_eqb r (snd m) && pstate_eqb s (model_state (fst m)).
+
+Fixpoint matches_states (out : list (sys * result)) (ss : list pstate) : bool :=
+  match out, ss with
+  | [], [] => true
+  | m :: out', s :: ss' => pstate_eqb s (model_state (fst m)) && matches_states out' ss'
+  | _, _ => false
+  end.
+Fixpoint matches_results (out : list (sys * result)) (rs : list result) : bool :=
+  match out, rs with
+  | [], [] => true
+  | m :: out', r :: rs' => result_eqb r (snd m) && matches_results out' rs'
+  | _, _ => false
+  end.
+
+Definition multi_matches (cont : bool) (trs : list (list opclass)) (k : list nat) (rs : list result) (ss : list pstate) : bool :=
+  let out := run_multi cont trs k in
+  matches_states out ss &&
+  (if cont then matches_results out rs
+   else match rs with [r] => result_eqb r (overall out) | _ => false end).
 
 Definition check (c : case) : bool :=
   match c with
   | CFault tr k casmode expect r s =>
       if negb expect then result_eqb r RErr && consistent r s
-      else if casmode || is_read tr k then consistent r s   (* a CAS mismatch may be retried; a failed read may be tolerated *)
-      else let m := run_request tr k in
-           result_eqb r (snd m) && state_matches (committed (fst m)) s
+      else if casmode then consistent r s   (* a CAS mismatch may be retried *)
+      else
+        (* a failed read is either fatal or tolerated (the code then continues as if the read had found nothing
+           that matters): the observation must be what the model predicts for one of the two *)
+        matches (run_request tr k) r s || (is_read tr k && matches (run_request tr (drop_reads tr k)) r s)
+  | CMulti cont trs k rs ss =>
+      let tr := concat trs in
+      multi_matches cont trs k rs ss || (is_read tr k && multi_matches cont trs (drop_reads tr k) rs ss)
   end.
 
 Definition mismatches (cs : list case) : list N := failing check cs.
